@@ -174,6 +174,17 @@ Defaults1 ==
                                                 Dm(<<"z">>, "sudo", << [n |-> "s", t |-> "DfltU32"], [n |-> "t", t |-> "DfltU32W"] >>),
                                                 Dm(NameMigrate, "migrate", << [n |-> "v", t |-> "DfltU32W"], [n |-> "w", t |-> "u32"] >>) >>] >>]
 
+(* argument names that are Rust keywords (written as raw identifiers `r#type` in the source): on the wire the plain name *)
+Km(name, kind, sig) == [Sh(name, kind, "ok") EXCEPT !.args = sig]
+Keywords1 ==
+    [id |-> "K1", family |-> "shared", overrides |-> {},
+     parts |-> << [id |-> "i1", methods |-> << Km(NameFoo, "exec", << [n |-> "type", t |-> "u32"], [n |-> "ref", t |-> "String"] >>),
+                                               Km(NameBar, "query", << [n |-> "fn", t |-> "u32"] >>) >>],
+                  [id |-> "own", methods |-> << Km(NameInstantiate, "instantiate", << [n |-> "mod", t |-> "u32"] >>),
+                                                Km(<<"x">>, "exec", << [n |-> "match", t |-> "u32"], [n |-> "type", t |-> "String"] >>),
+                                                Km(<<"y">>, "query", << [n |-> "loop", t |-> "u32"] >>),
+                                                Km(<<"z">>, "sudo", << [n |-> "move", t |-> "u32"] >>) >>] >>]
+
 (* programs that override entry points (C06, C04): one handler of every kind, some kinds served by the user's own functions *)
 OvProg(id, ov) ==
     [id |-> id, family |-> "override", overrides |-> ov,
@@ -220,7 +231,7 @@ PermTwin(p) ==
 RawSeq ==      \* all programs of this instance, as a sequence
        [gi \in 1..Len(Groups) |-> CorpusProg(gi)]
     \o [i \in 1..Len(SmallFs) |-> SmallProgOf(SmallFs[i], "m" \o ToString(i))]
-    \o <<Shared1, Shared2, Wide1, Defaults1, Generic1, Generic2, PermTwin(Shared1), PermTwin(CorpusProg(1))>> \o OverrideProgs \o CollideProgs
+    \o <<Shared1, Shared2, Wide1, Defaults1, Keywords1, Generic1, Generic2, PermTwin(Shared1), PermTwin(CorpusProg(1))>> \o OverrideProgs \o CollideProgs
 
 (* the table of elaborated programs: the static semantics applied once per program *)
 ElabSeq == TLCEval([i \in 1..Len(RawSeq) |-> Elab(RawSeq[i])])
@@ -312,7 +323,7 @@ B == INSTANCE BuilderOps
 BuilderRuns(q) == IF q.family # "shared" THEN <<>>
                   ELSE SetToSeq(B!Runs("exec", BuilderSets)) \o SetToSeq(B!Runs("inst", BuilderSets))
 (* programs whose generated multitest proxies are exercised by operation histories (C12, MC_Multitest) *)
-MtIds == {"S1", "R1", "R2", "A1", "W1"}
+MtIds == {"S1", "R1", "R2", "A1", "W1", "K1"}
 EmitProg(q) == q @@ [builder |-> BuilderRuns(q), mt |-> q.id \in MtIds] @@ [stim |-> LET ss == SetToSeq(StimSet(q)) IN [i \in 1..Len(ss) |-> ss[i] @@ [vias |-> ViasOf(q, ss[i])]]]
 
 EmitCorpus ==
